@@ -69,7 +69,8 @@ CLAIMED["C01"] = {
     "technique": "interprocedural event-word analysis over MIR with symbolic value atoms (who-may-call, exactly-once, provenance of the dispatched command)",
     "text": ("Decides on the " + SESSION + ": only Enter reaches CommandProcessor::process and never twice; the Enter arm starts with CR LF, "
              "tokenises exactly the edit buffer, builds the raw command from exactly those tokens and dispatches exactly that command once "
-             "iff there is a token and (help on) it is not a help request; Ok paths end with editor reset, one prompt, flush; history is "
+             "iff there is a token and (help on) it is not a help request; every Ok path of the Enter arm (also one that returns before "
+             "tokenising) ends with editor reset, one prompt, flush; history is "
              "pushed from Editor::text before the rewrite; from_tokens returns (first token, rest) and None iff no first token. "
              "Not decided as a value: equality of the tokens with the line after arbitrary editing." + IMP +
              "C04 (key decoding), C05 (editor operations), C06.sync (the visible line is the editor's), C07 (tokenisation), C08.classify, "
@@ -122,7 +123,9 @@ CLAIMED["C12"] = {
              "command_count / group listing against the oracle, UnknownCommand for undeclared names, the option-skipping walker on every argument "
              "word up to the depth bound (own help vs. delegation to the right sub-command), and the presence of usage path, positionals, every "
              "option with its names and value name, `-h, --help` and the sub-command list in a command's own help; and sibling agreement: for "
-             "every explored word the derived help walker and the derived parser pick the same token as sub-command name. Not decided: text layout, "
+             "every explored word the derived help walker and the derived parser pick the same token as sub-command name; a group's command_help "
+             "asks its visible members in declaration order, the next only after UnknownCommand, hidden ones never, and gives up only after "
+             "all of them. Not decided: text layout, "
              "declarations outside the corpus." + IMP + "C08.classify (help options are found among ArgsIter's classified items)."),
     "design_ref": "DESIGN.md §4 C12",
     "note": TB,
@@ -175,7 +178,8 @@ CLAIMED["C06"] = {
     "technique": "event words with symbolic guards extracted by abstract interpretation of MIR, composed with editor-operation and ECMA-48 effects and checked for synchronisation on every start shape up to a length bound",
     "text": ("Decides that every successful path of every key arm, of Cli::write and of Cli::set_prompt (all paths and outcomes from the MIR, "
              "guards on cursor/len kept, counted loops summarised by their trip count) maps a synchronised terminal/editor state to a "
-             "synchronised one, for every start state with up to 3 characters on each side of the cursor, two prompts and every modelled "
+             "synchronised one, for every start state with up to 3 characters on each side of the cursor, two prompts (thorough tier, all "
+             "features on: 4 characters, three prompts) and every modelled "
              "typed/recalled/completed text; codes::* are compared with ECMA-48. Not decided: display width other than 1, wrapping, and "
              "what depends on the editor being an ideal editor (C05's undecided part)." + IMP +
              "C13.dirty/framing/sanitise (`not dirty` means column 0 when the line is redrawn after application output) and C05 (the effect "
@@ -191,7 +195,9 @@ CLAIMED["C11"] = {
              "non-contiguous tables are reported with the names lost); group impls consult each visible member once and hidden ones never; "
              "the Tab arm maps to one Editor::autocompletion whose closure merges the built-in help candidate iff `help` starts with the "
              "request; merge_autocompletion on every path (linear domain): `partial` is sticky, is set by every merge into a non-empty state, and "
-             "the kept length is at most the candidate, the previous and the buffer length. Not decided: that the kept prefix is the longest "
+             "the kept length is at most the candidate, the previous and the buffer length; the content effect of Editor::autocompletion on the "
+             "line (segment algebra) and that the completed word handed out by Request::from_input is the text from its first non-blank "
+             "(0x20) byte to its end, nothing else stripped. Not decided: that the kept prefix is the longest "
              "common continuation as a value (common_prefix_len: C17.D), buffer bounds (C03)."),
     "design_ref": "DESIGN.md §4 C11",
     "note": TB + " Quantifier over declarations is bounded by the corpus (fixtures/decls, integration tests, examples/desktop).",
@@ -206,7 +212,8 @@ CLAIMED["C16"] = {
              "Cli::process_byte, Cli::write and Cli::set_prompt (every path and outcome) are identical to the full configuration's except that "
              "Up/Down (history off) and Tab (autocomplete off) have the empty word, the history push disappears from Enter, and (help off) the "
              "help decision disappears and every command is dispatched; and (G) the derive output for the declaration corpus is identical across "
-             "feature sets except for the impls of the disabled facility itself."),
+             "feature sets except for the impls of the disabled facility itself. Imported: C09.parse on corpus module d13 (a user option "
+             "named `h` is parsed like any other, so a help-off build does not lose it)."),
     "design_ref": "DESIGN.md §4 C16, §2 E6",
     "note": TB + " The behaviour compared is the event-word abstraction (which operations, in which order, on which values), not concrete runs.",
 }
